@@ -723,7 +723,7 @@ for _prov, _tag in (("eqrel", "ds10"), ("trrel", "ds11"), ("trrel_uf", "ds12")):
     prog(f"{_prov}_tern", _ds_ternary(_prov), f"ds {_tag}", bound=2, dom=3)
     for _pat in ("010", "001", "011"):
         prog(f"{_prov}_only{_pat}", _ds_tern_only(_prov, _pat), f"ds {_tag}", bound=2, dom=3)
-    prog(f"{_prov}_plain", _ds_plain(_prov), f"ds {_tag}" + (" par" if _prov == "eqrel" else ""), bound=3, dom=3)
+    prog(f"{_prov}_plain", _ds_plain(_prov), f"ds {_tag} perm" + (" par" if _prov == "eqrel" else ""), bound=3, dom=3)
 
 
 # ------------------------------------------------------------------------------------------------ stress (large inputs)
